@@ -35,9 +35,9 @@ Name == [Ok |-> "Ok", TooManyEntries |-> "Err:TooManyEntries", EntryTooBig |-> "
          DifferentBaseRegister |-> "Err:DifferentBaseRegister", RegisterAddrMismatch |-> "Err:RegisterAddrMismatch"]
 Names(set) == {Name[x] : x \in set}
 
-Events == {"Reset", "AddOp", "Merge", "VerifiedMerge", "VerifiedMergeCrafted", "Verify", "Read", "Law", "Tampered"}
+Events == {"Reset", "AddOp", "Merge", "VerifiedMerge", "VerifiedMergeCrafted", "Verify", "Read", "Law", "Tampered", "BaseProbe"}
 Clauses == {"C06_MergeCommutes", "C06_MergeAssoc", "C06_MergeIdem", "C06_Converge", "C06_AuthorisedAdd",
-            "C06_AuthorisedMerge", "C06_Authorised", "C06_Closure"}
+            "C06_AuthorisedMerge", "C06_Authorised", "C06_Closure", "C06_OwnerSigned"}
 
 \* ---- observed values
 OpSet(o) == [ops |-> S(o.ops), nf |-> o.nf, pre |-> o.prefix]   \* pre: the fillers held are a prefix of the filler list
@@ -114,6 +114,13 @@ Evaluations(e) ==
            \* verify() must not accept a register assembled with it
            { Ev("C06_AuthorisedAdd", e.open \/ (e.res # "Ok" /\ e.ver # "Ok"), ~e.open,
                 [NoFacts EXCEPT !.res = e.res, !.reasons = <<"tampered:" \o e.kind>>]) }
+      [] e.ev = "BaseProbe" ->
+           \* replica r's base register with its permissions / meta / owner swapped, presented with the signature the
+           \* owner gave the genuine base: not owner-signed, so verify(), verify_with_address() and verified_merge()
+           \* (into a replica of the same altered base, and into the honest replica) must refuse it and nothing enters
+           { Ev("C06_OwnerSigned", R!C06_OwnerSigned(~e.differs, {e.ver, e.vwa, e.vm, e.vmh}, e.entered + e.hentered),
+                e.differs /\ e.ctl = "Ok",
+                [NoFacts EXCEPT !.res = e.ver, !.count = e.entered + e.hentered, !.reasons = <<"base:" \o e.kind>>]) }
       [] e.ev = "AddOp" ->
            LET b == g.B[e.r]  before == g.cur[e.r].os.ops  after == S(e.obs.ops) IN
            { Ev("C06_AuthorisedAdd", R!C06_AuthorisedAdd(g.P, b, e.o, e.res, before, after),
@@ -182,7 +189,7 @@ ExpectedRes(e) ==
              R!VMergeRes(g.P, g.B[e.r], [g.B[e.r] EXCEPT !.sigOk = e.sig], S(e.cs), e.cnf + Cardinality(S(e.cs)), g.limit)
       [] e.ev = "Verify" -> R!VerifyRes(g.P, g.B[e.r], g.cur[e.r].os.ops, Count(g.cur[e.r].os), g.limit)
 Drifts(e) ==
-    IF e.ev \in {"Reset", "Law", "Tampered"} \/ ~WellFormed(e) THEN {}
+    IF e.ev \in {"Reset", "Law", "Tampered", "BaseProbe"} \/ ~WellFormed(e) THEN {}
     ELSE (IF e.ev # "Read" /\ e.res \notin Names(ExpectedRes(e)) THEN {"result"} ELSE {})
     \* the result the model gave in the TLC scenario (only where the model allows a single result: which of
     \* several offending operations verify() meets first is left open by the model)
